@@ -437,6 +437,11 @@ fn js_field(field: &str) -> String {
     format!("_json->'$.{}'", field)
 }
 
+//the SQL value of a field: aggregates must compare numbers as numbers and ignore null
+fn js_value(field: &str) -> String {
+    format!("_json->>'$.{}'", field)
+}
+
 fn get_fields(
     entity: &EntityQuery,
     prepared_query: &mut SingleQuery,
@@ -591,7 +596,7 @@ fn get_fields(
                         let agg_field = if field.field.is_system {
                             field.field.name.clone()
                         } else {
-                            js_field(f)
+                            js_value(f)
                         };
                         format!("'{}', avg({}) ", &field.name(), agg_field)
                     }
@@ -600,7 +605,7 @@ fn get_fields(
                         let agg_field = if field.field.is_system {
                             field.field.name.clone()
                         } else {
-                            js_field(f)
+                            js_value(f)
                         };
                         format!("'{}', max({}) ", &field.name(), agg_field)
                     }
@@ -608,7 +613,7 @@ fn get_fields(
                         let agg_field = if field.field.is_system {
                             field.field.name.clone()
                         } else {
-                            js_field(f)
+                            js_value(f)
                         };
                         format!("'{}', min({}) ", &field.name(), agg_field)
                     }
@@ -616,7 +621,7 @@ fn get_fields(
                         let agg_field = if field.field.is_system {
                             field.field.name.clone()
                         } else {
-                            js_field(f)
+                            js_value(f)
                         };
                         format!("'{}', total({}) ", &field.name(), agg_field)
                     }
